@@ -261,6 +261,9 @@ def shape_final_newline_after_trim(prog: dict[str, Any], default_trim: str) -> b
     return False
 
 
+ORDER_POOL: list[Any] = [None, False, True, 0, 1, -1, 2, 10, 0.0, 1.0, 0.5, 1.5, -0.5, "", "0", "1", "a", "b", "B", "10", "true",
+                         "false", " "]
+
 DYNAMIC_FLAGS = ("map_missing_property",)
 
 DEFECT_SHAPES = {
@@ -415,7 +418,10 @@ class C01(Prop):
         "schema-conforming data (confusion 0-4 %), x default_trim {+,-,~} x suppression {on,off} x shorthand_indexes "
         "{on,off} (drawn per case), 30 % of programs with explicit whitespace-control markers; plus 150+ hand-transcribed "
         "doc/CTS examples. Non-trivial: the model covers the program, it contains >= 2 distinct construct kinds of which "
-        ">= 1 control-flow tag was executed (model trace) and the output is non-empty. Distinct by SHA-1 of the case."
+        ">= 1 control-flow tag was executed (model trace) and the output is non-empty. O3 (model-free): every pair and "
+        "triple of a 23-value scalar pool (nil, booleans, ints, floats, strings; as data and as literals) under the "
+        "order laws converse, asymmetry, strictness, antisymmetry, eq/ne complement and transitivity; non-trivial when "
+        "some ordering holds. Distinct by SHA-1 of the case."
     )
     assumptions = [
         "The model asserts only what docs/*.md or a CTS golden case states; everything else is skipped and counted under "
@@ -453,11 +459,98 @@ class C01(Prop):
             yield {"kind": "calibration", "name": name, "prog": prog, "data": data, "want": want, "cfg": DEFAULT_CFG,
                    "layout": 1000 + i}
 
+        # O3 - order laws over every pair of a scalar pool (model-free)
+        for i, a in enumerate(ORDER_POOL):
+            for j, b in enumerate(ORDER_POOL):
+                yield {"kind": "order-laws", "a": a, "b": b, "literal": (i + j) % 2 == 1, "cfg": DEFAULT_CFG}
+
+        for a in ORDER_POOL:
+            for b in ORDER_POOL:
+                for c in ORDER_POOL:
+                    yield {"kind": "order-trans", "a": a, "b": b, "c": c, "cfg": DEFAULT_CFG}
+
+    def _check_trans(self, case: Any) -> Result:
+        """Transitivity: a < b and b < c imply a < c (and the same for <=)."""
+        res = Result()
+        env = make_env({}, **config(case["cfg"]))
+        vals = {"a": case["a"], "b": case["b"], "c": case["c"]}
+        res.labels.append("order-laws:transitivity")
+
+        def holds(x: str, op: str, y: str) -> bool:
+            res.evaluations += 1
+            try:
+                return bool(env.from_string("{% if " + x + " " + op + " " + y + " %}T{% endif %}").render(**vals) == "T")
+            except LiquidError:
+                return False
+
+        try:
+            for op in ("<", "<="):
+                if holds("a", op, "b") and holds("b", op, "c"):
+                    res.nontrivial = True
+                    if not holds("a", op, "c"):
+                        kinds = "/".join(sorted({type(v).__name__ for v in vals.values()}))
+                        res.fail("order-laws", f"order-law:transitivity:{kinds}", f"{vals} : a {op} b and b {op} c but not a {op} c")
+        except Exception as err:  # noqa: BLE001 - C02's business
+            res.labels.append("crash:" + exc_bucket(err))
+        return res
+
+    def _check_order(self, case: Any) -> Result:
+        """Laws every ordering must satisfy together with equality, whatever the documentation leaves open
+        about which values are ordered: converse (a < b iff b > a, a <= b iff b >= a), asymmetry, strictness
+        (a < b implies a <= b and a != b) and antisymmetry (a <= b and b <= a imply a == b)."""
+        res = Result()
+        a, b = case["a"], case["b"]
+        lit = case.get("literal") and all(type(v) in (bool, int, str) or v is None for v in (a, b))
+        res.labels.append("order-laws:" + ("literal" if lit else "data"))
+
+        def term(name: str, v: Any) -> str:
+            if not lit:
+                return name
+            return "nil" if v is None else ("true" if v else "false") if isinstance(v, bool) else \
+                str(v) if isinstance(v, int) else "'" + v + "'"
+
+        env = make_env({}, **config(case["cfg"]))
+        got: dict[str, str] = {}
+        for key, left, op, right in (("lt", "a", "<", "b"), ("gt'", "b", ">", "a"), ("le", "a", "<=", "b"),
+                                     ("ge'", "b", ">=", "a"), ("le'", "b", "<=", "a"), ("lt'", "b", "<", "a"),
+                                     ("eq", "a", "==", "b"), ("ne", "a", "!=", "b")):
+            x = term(left, a if left == "a" else b)
+            y = term(right, a if right == "a" else b)
+            src = "{% if " + x + " " + op + " " + y + " %}T{% else %}F{% endif %}"
+            try:
+                got[key] = env.from_string(src).render(a=a, b=b)
+            except LiquidError as err:
+                got[key] = type(err).__name__
+            except Exception as err:  # noqa: BLE001 - C02's business
+                res.labels.append("crash:" + exc_bucket(err))
+                return res
+            res.evaluations += 1
+        kinds = "/".join(sorted({type(a).__name__, type(b).__name__}))
+        bad = []
+        if got["lt"] != got["gt'"]:
+            bad.append("converse-lt-gt")
+        if got["le"] != got["ge'"]:
+            bad.append("converse-le-ge")
+        if got["lt"] == "T" and got["lt'"] == "T":
+            bad.append("asymmetry")
+        if got["lt"] == "T" and (got["le"] != "T" or got["ne"] != "T"):
+            bad.append("strictness")
+        if got["le"] == "T" and got["le'"] == "T" and got["eq"] != "T":
+            bad.append("antisymmetry")
+        if (got["eq"] == "T") == (got["ne"] == "T") and got["eq"] in "TF" and got["ne"] in "TF":
+            bad.append("eq-ne-complement")
+        for law in bad:
+            res.fail("order-laws", f"order-law:{law}:{kinds}", f"a={a!r} b={b!r} literal={bool(lit)} outcomes={got}")
+        res.nontrivial = "T" in (got["lt"], got["lt'"], got["le"], got["le'"])
+        return res
+
     def extra_evidence(self) -> dict[str, Any]:
         return {"model_calibration_ok": self.calibrated, "model_calibration_bad": self.miscalibrated,
                 "model_calibration_table": f"{len(TABLE)} documented examples"}
 
     def sample(self, case: Any) -> Any:
+        if case["kind"] in ("order-laws", "order-trans"):
+            return case
         try:
             src = to_source(case["prog"]["main"], 0)
         except Exception:  # noqa: BLE001
@@ -465,6 +558,10 @@ class C01(Prop):
         return {"kind": case["kind"], "cfg": config(case["cfg"]), "src": src[:300]}
 
     def check(self, case: Any, disabled: frozenset[str] = frozenset()) -> Result:  # noqa: PLR0912, PLR0915
+        if case["kind"] == "order-laws":
+            return self._check_order(case)
+        if case["kind"] == "order-trans":
+            return self._check_trans(case)
         res = Result()
         prog, data = json.loads(json.dumps(case["prog"])), case["data"]
         opts = config(case["cfg"])
